@@ -149,6 +149,27 @@ def run(ctx, rep):
                             oknl = True
         rep.check("C19.b", "remove_not_in_list/not-listed", oknl, where=where(*rest[0]) if rest else RN.loc(),
                   what="every cached id that is left after removing the listed ones (not in the repository) is removed")
+        # ... for every list, the empty one included (an empty repository listing is exactly when every cache entry is stale):
+        # the pass over the remaining keys is on EVERY path to the Ok return - no early exit skips it
+        anchors = []
+        if rest:
+            F_, bb = rest[0]
+            if F_ is RN:
+                byh_ = {}
+                for (l_, h_) in C.back_edges(RN):
+                    byh_.setdefault(h_, set()).update(C.loop_blocks(RN, h_, l_))
+                inner_ = sorted([(len(bl), h_, bl) for h_, bl in byh_.items() if bb in bl])
+                if inner_:
+                    bl = inner_[0][2]
+                    anchors = [cb for cb, ct in RN.calls() if cb in bl and "callee" in ct and re.search(r"Iterator(>)?::next$", callee(ct) + " " + callee_decl(ct)) and C.dominates(RN, cb, bb)]
+            else:
+                anchors = [cb for cb, ct in RN.calls() if "callee" in ct and re.search(r"Iterator::(try_for_each|for_each|try_fold|fold)$", callee_decl(ct))
+                           and any(d_[0] == "stmt" and d_[4][0] == "agg" and d_[4][1][0] == "closure" and d_[4][1][1] == F_.path for a_ in ct["args"] for d_ in RN.defs().get(op_local(a_), []))]
+        okrets = [bi for bi, blk in enumerate(RN.blocks) for s_ in blk["s"] if s_[0] == "=" and s_[1] == [0] and s_[2][0] == "agg" and s_[2][1][0] == "adt" and s_[2][1][2] == "Ok"]
+        tail_ret = [cb for cb in anchors if RN.term(cb).get("dest") == [0]]
+        okall = bool(anchors) and (bool(okrets) or bool(tail_ret)) and not any(o in RN.reachable_from(0, cut_blocks=anchors) for o in okrets)
+        rep.check("C19.b", "remove_not_in_list/not-listed/every-path", okall, where=RN.loc(), what="the removal of cache entries that are not in the list runs on every path to success (also for an empty list)" if okall else
+                  "remove_not_in_list can return Ok without the pass that removes entries not in the list (early exit, e.g. for an empty list): with an empty repository listing every stale cache entry survives")
     # every listing entry point of CachedBackend prunes: `list` is either not overridden (the trait default calls
     # list_with_size) or goes through list_with_size / remove_not_in_list itself
     im = [i for i in prog.impls if (i["header"].get("self_adt") or "").endswith("cache::CachedBackend") and (i["header"].get("trait") or "").endswith("backend::ReadBackend")]
